@@ -1270,6 +1270,28 @@ def rule_R27(toks, fired):
     return toks
 
 
+def rule_R28(toks, fired):
+    """X[a..=b]  ->  X[a..(b + 1)]     (index by an inclusive range: no Verus spec; same elements whenever b + 1 does not
+    overflow, which the overflow check on the synthesized `b + 1` turns into an obligation)"""
+    i = 0
+    while i < len(toks):
+        t = toks[i]
+        if t.kind == "punct" and t.text == "[" and not t.syn:
+            c = match_close(toks, i)
+            d = 0
+            for q in range(i + 1, c):
+                x = toks[q]
+                if x.kind == "punct" and x.text in OPEN: d += 1
+                elif x.kind == "punct" and x.text in CLOSE: d -= 1
+                elif x.kind == "punct" and x.text == "..=" and d == 0:
+                    hi = _strip_ws(toks[q + 1:c])
+                    toks = toks[:q] + synth("..(") + hi + synth(" + 1)") + toks[c:]
+                    fired["R28"] = fired.get("R28", 0) + 1
+                    break
+        i += 1
+    return toks
+
+
 def rule_R18(toks, fired):
     """bare max(a, b) / min(a, b) (core::cmp, imported by `use`) -> usize_max(a, b) / usize_min(a, b): the generic
     Ord-based functions have no Verus spec; the prelude helpers are ASSUMED to be the usize instances"""
@@ -1390,9 +1412,9 @@ def rule_R12(toks, fired):
     return out
 
 
-RULES = {"R27": rule_R27, "R26": rule_R26, "R25": rule_R25, "R24": rule_R24, "R23": rule_R23, "R22": rule_R22, "R21": rule_R21, "R20": rule_R20, "R19": rule_R19, "R18": rule_R18, "R17": rule_R17, "R13": rule_R13, "R5": rule_R5, "R1": rule_R1, "R1f": rule_R1f, "R2": rule_R2, "R3": rule_R3, "R4": rule_R4, "R6": rule_R6, "R7": rule_R7,
+RULES = {"R28": rule_R28, "R27": rule_R27, "R26": rule_R26, "R25": rule_R25, "R24": rule_R24, "R23": rule_R23, "R22": rule_R22, "R21": rule_R21, "R20": rule_R20, "R19": rule_R19, "R18": rule_R18, "R17": rule_R17, "R13": rule_R13, "R5": rule_R5, "R1": rule_R1, "R1f": rule_R1f, "R2": rule_R2, "R3": rule_R3, "R4": rule_R4, "R6": rule_R6, "R7": rule_R7,
          "R10": rule_R10, "R11": rule_R11, "R12": rule_R12}
-RULE_ORDER = ["R12", "R25", "R7", "R6", "R13", "R18", "R19", "R17", "R21", "R22", "R23", "R24", "R26", "R27", "R20", "R10", "R4", "R3", "R5", "R11", "R2", "R1", "R1f"]
+RULE_ORDER = ["R12", "R25", "R7", "R6", "R13", "R18", "R19", "R17", "R21", "R22", "R23", "R24", "R26", "R27", "R28", "R20", "R10", "R4", "R3", "R5", "R11", "R2", "R1", "R1f"]
 
 
 def apply_rules(toks, rules, fired):
@@ -1472,7 +1494,8 @@ def stmt_bounds(toks, i):
     # walk forward to ';' at depth 0
     b = i
     depth = 0
-    block_stmt = toks[a].kind == "ident" and toks[a].text in ("if", "for", "while", "loop", "match", "unsafe")
+    block_stmt = (toks[a].kind == "ident" and toks[a].text in ("if", "for", "while", "loop", "match", "unsafe")) \
+        or (toks[a].kind == "punct" and toks[a].text == "{")
     while b < len(toks):
         t = toks[b]
         if t.kind == "punct":
